@@ -151,6 +151,33 @@ def cases(rng, tier):
         w = "\n".join([g.render_struct(mid), g.render_struct(last), "@group(0) @binding(0) var<storage, read_write> table: Table;",
                        "@group(0) @binding(1) var<storage, read_write> tail: Tail;", "@compute @workgroup_size(1) fn main() {}"]) + "\n"
         out.append({"wgsl": w, "family": "large_arrays", "opts": {"encase": True, "mv": "Glam"}, "tys": [mid, last], "rts_lengths": [0]})
+    # a host-shareable struct that is ALSO an entry point result (a fragment output kept in a debug buffer), nested as an
+    # array element / member of another host struct: it is host-visible, so it is emitted and serialisable like any other
+    for i in range({"quick": 4, "search": 8, "thorough": 16}[tier]):
+        g = structgen.Gen(rng)
+        smp = Ty("struct", name="Sample", members=[("color", Ty("vec", n=4, s="f32")), ("weight", Ty("vec", n=rng.choice([2, 4]), s="f32"))], has_rts=False)
+        dbg = Ty("struct", name="DebugSamples", members=[("count", Ty("scalar", s="u32")), ("samples", Ty("array", elem=smp, n=4))] if i % 2 == 0
+                 else [("last", smp), ("count", Ty("scalar", s="u32"))], has_rts=False)
+        w = "\n".join([g.render_struct(smp, locations=[0, 1]), g.render_struct(dbg),
+                       "@group(0) @binding(0) var<storage, read_write> debug_samples: DebugSamples;",
+                       "@fragment fn fs_main() -> Sample { var o: Sample; return o; }"]) + "\n"
+        out.append({"wgsl": w, "family": "host_struct_is_entry_result", "opts": {"encase": True, "mv": "Glam"},
+                    "tys": [smp, dbg], "rts_lengths": [0]})
+    # the same struct type used by a var<private> / var<workgroup> declared BEFORE the buffer variable: every struct below
+    # the buffer variable's type is host-shareable whichever variable reached it first
+    for i in range({"quick": 6, "search": 12, "thorough": 24}[tier]):
+        g = structgen.Gen(rng)
+        light = Ty("struct", name="Light", members=[("position", Ty("vec", n=3, s="f32")), ("range", Ty("scalar", s="f32")), ("color", Ty("vec", n=4, s="f32"))], has_rts=False)
+        lights = Ty("struct", name="Lights", members=[("count", Ty("scalar", s="u32")), ("lights", Ty("array", elem=light, n=rng.choice([2, 8])))], has_rts=False)
+        scene = Ty("struct", name="SceneLights", members=[("ambient", Ty("vec", n=4, s="f32")), ("light_set", lights)], has_rts=False)
+        first = rng.choice(["var<private> cached: Lights;", "var<workgroup> shared_lights: Lights;", "var<private> one: Light;", "var<private> cached_scene: SceneLights;"])
+        top = rng.choice([lights, scene])
+        decls = [first, "@group(0) @binding(0) var<storage, read_write> scene_lights: %s;" % top.name]
+        if i % 3 == 2:
+            decls.reverse()
+        w = "\n".join([g.render_struct(light), g.render_struct(lights), g.render_struct(scene)] + decls + ["@compute @workgroup_size(1) fn main() {}"]) + "\n"
+        out.append({"wgsl": w, "family": "private_variable_declared_first", "opts": {"encase": True, "mv": "Glam"},
+                    "tys": [light, lights] + ([scene] if top is scene else []), "rts_lengths": [0]})
     # two structs whose names are equal up to the case style, one nested in a third: every field refers to ITS struct
     for i in range({"quick": 4, "search": 8, "thorough": 16}[tier]):
         sa = Ty("struct", name="light_data", members=[("color", Ty("vec", n=4, s="f32")), ("range", Ty("scalar", s="f32"))], has_rts=False)
